@@ -211,7 +211,7 @@ func init() {
 
 	planTable["C21"] = enumPlan("exploration",
 		"Universe of 5 internal keys (two versions of one key, a key extending it with 0xFF, two more keys); 1..3 (quick) / 1..4 (thorough) input iterators, each ANY subset of the universe (empty inputs included), flat and nested merge trees, forward and reverse: Rewind and Seek to every universe key and 8 gap probes must yield the sorted union with exactly one copy per internal key, tagged with the earliest input holding it.",
-		"Inputs are in-harness slice iterators with table-iterator seek semantics; the merge iterator is the production table.MergeIterator.",
+		"Every tuple is run three times: with in-harness slice iterators (table-iterator seek semantics), with production table iterators over in-memory tables built from the subsets, and with production ConcatIterators over each subset split into two tables (what a level contributes); the merge iterator is the production table.MergeIterator.",
 		"all tuples of subsets; distinct = distinct input tuples",
 		[]Stage{en("c21merge", 16, 90, prm("inputs", 3))},
 		[]Stage{en("c21merge", 16, 900, prm("inputs", 4))})
